@@ -125,6 +125,12 @@ func Run(t *testing.T, w World, opt Options) (res Result) {
 			opt.MaxSteps = 600000
 		}
 	}
+	if opt.Dense {
+		// a dense run spends thousands of steps in loops that are a single step otherwise; letting timers run ahead of
+		// runnable work on top of that would let simulated minutes pass inside one loop and void every time-bounded
+		// clause. Dense runs explore memory-level interleavings; timer-versus-task races are the other runs' job.
+		opt.TimerSlack = 0
+	}
 	simhook.DenseAll = opt.Dense
 	defer func() { simhook.DenseAll = false }()
 	defer func() {
@@ -363,35 +369,48 @@ func firstRepoFrame(st string) string {
 
 func (d *driver) candidates(now time.Time) []cand {
 	var out []cand
+	// since when has the longest-waiting piece of runnable work been waiting?
+	oldest := now
 	for _, t := range d.rt.Parked() {
 		out = append(out, cand{label: fmt.Sprintf("T%d", t.ID), task: t})
+		if !t.ParkedAt.IsZero() && t.ParkedAt.Before(oldest) {
+			oldest = t.ParkedAt
+		}
 	}
 	for _, e := range d.rt.Events() {
 		if !e.At.IsZero() && e.At.After(now) {
 			continue
 		}
 		out = append(out, cand{label: e.Label, ev: e})
+		ready := e.Created
+		if e.At.After(ready) {
+			ready = e.At
+		}
+		if !ready.IsZero() && ready.Before(oldest) {
+			oldest = ready
+		}
 	}
 	if d.finalDrain {
 		return out
 	}
+	// A timer may fire although other work is runnable (a slow or descheduled task, a late delivery), but no piece of
+	// runnable work is ever left waiting for more than the slack of simulated time: the clock cannot run away from
+	// work that only needs a turn.
+	limit := now
+	if len(out) > 0 {
+		limit = oldest.Add(d.opt.TimerSlack)
+		if limit.Before(now) {
+			limit = now
+		}
+	}
 	for _, tm := range d.rt.Timers() {
 		tm := tm
-		if tm.Due.After(now.Add(d.slack(len(out)))) {
+		if tm.Due.After(limit) {
 			break
 		}
 		out = append(out, cand{label: tm.Label, timer: &tm})
 	}
 	return out
-}
-
-// slack: how far ahead of "now" a timer may fire although other work is runnable
-// (a timer firing "early" relative to runnable work models a slow or descheduled task).
-func (d *driver) slack(nOther int) time.Duration {
-	if nOther == 0 {
-		return 0
-	}
-	return d.opt.TimerSlack
 }
 
 func (d *driver) nextTime(now time.Time) (time.Time, bool) {
